@@ -439,3 +439,15 @@ def from_json(x):
     if isinstance(x, list): return tuple(from_json(y) for y in x)
     if isinstance(x, dict): return {(int(k) if isinstance(k, str) and k.isdigit() else k): from_json(v) for k, v in x.items()}
     return x
+
+
+def split_key(tuple_text):
+    """key part (all columns but the last) of a rendered tuple `(a b (set 1 2))`"""
+    inner = tuple_text[1:-1]
+    depth, cut = 0, None
+    for i in range(len(inner) - 1, -1, -1):
+        ch = inner[i]
+        if ch == ")": depth += 1
+        elif ch == "(": depth -= 1
+        elif ch == " " and depth == 0: cut = i; break
+    return inner[:cut] if cut is not None else ""
